@@ -426,6 +426,7 @@ type FuncSpec struct {
 	MayPanic  bool     // calls may panic (they run code outside the contracts): a panic point for recovering callers
 	Recovers  []Clause // what holds of the named results whenever a panic is recovered
 	From      map[string][]string // callee name suffix -> the only ensures labels of its contract this function needs (empty: none)
+	ResultIs  string   // name of an uninterpreted spec function that denotes this (deterministic, effect-free) function's result
 	Models    []Clause // limits of what an assumed contract models: a call outside them is undecided, not a violation
 	Logged    bool // calls are recorded in the ghost event log (events/evis/evarg/evres)
 	Residual  bool // interface-method contract used only for dynamic types outside the module
@@ -522,7 +523,7 @@ func newContractSet() *ContractSet {
 var clauseKeywords = map[string]bool{
 	"requires": true, "ensures": true, "modifies": true, "loop": true, "invariant": true,
 	"decreases": true, "func": true, "extern": true, "spec": true, "lemma": true, "pure": true,
-	"inline": true, "panics": true, "trusted": true, "induction": true, "use": true, "def": true, "call": true, "apply": true, "apply_head": true, "apply_exit": true, "opaque": true, "embedded": true, "guarded": true, "callback": true, "monitor": true, "check_at_store": true, "assume_invariant": true, "residual": true, "from": true, "models": true, "hidden": true, "reveal": true, "logged": true, "may_panic": true, "recovers": true,
+	"inline": true, "panics": true, "trusted": true, "induction": true, "use": true, "def": true, "call": true, "apply": true, "apply_head": true, "apply_exit": true, "opaque": true, "embedded": true, "guarded": true, "callback": true, "monitor": true, "check_at_store": true, "assume_invariant": true, "residual": true, "result_is": true, "from": true, "models": true, "hidden": true, "reveal": true, "logged": true, "may_panic": true, "recovers": true,
 }
 
 // parseContractText parses the body of one or more /*@ ... @*/ blocks (already
@@ -820,6 +821,10 @@ func (cs *ContractSet) parseContractText(text, pkgPath, file string) error {
 		case "logged":
 			if curF != nil {
 				curF.Logged = true
+			}
+		case "result_is":
+			if curF != nil {
+				curF.ResultIs = strings.TrimSpace(rest)
 			}
 		case "from":
 			// from <callee> nothing | from <callee> only l1, l2: which
